@@ -13,6 +13,7 @@ CONSTANTS
   PerturbMode = "pure"
   HashMode = "ordered"
   SFSMode = "copies"
+  VectorMode = "copies"
   KernelMode = "static_by_size"
   MaxTable = 60
 SPECIFICATION Spec
